@@ -176,6 +176,8 @@ def run(ctx, built):
     bucket_identity(ctx)
     AS.stream_hash(ctx, built)
     AS.stream_cnt(ctx, built, oracle(ctx))
+    import importlib
+    importlib.import_module("props.c04").stream_row_counters(ctx)      # counts through the row counters of one factory = counts of the bucket's own contribution table
     metamorphic(ctx)
     try:
         import tree_streams as TS
